@@ -182,7 +182,7 @@ def run(ctx, res):
         f = prog.need(fn, U)
         res.saw(f)
         pn = [q["name"] for q in f.params]
-        evp = APE.run(prog, cg, f, bound=APE.BOUND, inline=tuple(x for x in siblings if x != fn))
+        evp = APE.run(prog, cg, f, bound=APE.BOUND, inline=("*static",), max_paths=40000)
         nlook = 0
         for p in evp.paths:
             evs = [e for e in p.events if e.kind == "call"]
@@ -222,8 +222,9 @@ def run(ctx, res):
                         if x.a in lookups:
                             break
                         rest.append(x)
-                    reg = [x for x in rest if x.a == "iter_vec_add" and x.b[1] == e.c]
-                    off = [x for x in rest if x.a == "merger_iter_add_entry" and x.b[1] == e.c]
+                    reg = [x for x in rest if x.a == "iter_vec_add" and len(x.b) > 1 and x.b[1] == e.c]
+                    # offered: an entry is created for it (the iterator is stored into an entry's `it`), wherever that happens
+                    off = [x for x in p.events if x.kind == "store" and strip_tags(x.a).endswith("->it") and x.b == e.c]
                     if nonnull:
                         res.check(len(reg) == 1 and len(off) == 1, "C05.R1", site(f, "register+offer"),
                                   "non-NULL per-source iterator is registered for destruction and offered to the heap once",
@@ -234,10 +235,16 @@ def run(ctx, res):
                                   "NULL per-source iterator is skipped", "NULL per-source iterator is used", f.loc(e.node), p.describe(f))
             if p.end == "exit" and fn != slotfn["iter"].name:
                 # empty result: entry_vec_size(it->entries) == 0 -> merger_iter_free + return NULL
+                # the decision "did any source contribute an entry": the first test of the entries vector's size on the path
+                # (later ones belong to the clean-up loop of the give-up branch)
+                decided = False
                 for (a, b), v in p.cons.items():
-                    if a.startswith("entry_vec_size(") and b == "#0":
+                    if a.startswith("entry_vec_size(") and b == "#0" and not decided:
+                        decided = True
                         if v == frozenset((EQ,)):
-                            fr = [x for x in evs if x.a == "merger_iter_free"]
+                            # the iterator object is given up: its allocation is freed on this path
+                            alloc0 = next((x.c for x in evs if x.a in ("my_calloc", "calloc", "my_malloc")), None)
+                            fr = [x for x in evs if x.a in ("free", "my_free") and x.b and x.b[0] == alloc0]
                             res.check(len(fr) == 1 and p.ret() == ("c", 0), "C05.R1", site(f, "empty-result"),
                                       "no entry: iterator object freed, NULL returned",
                                       "empty lookup result does not free the iterator and return NULL", f.loc(f.body), p.describe(f))
